@@ -98,12 +98,117 @@ def main(argv=None):
         print(f"psvc: no contract serves {prop}")
         return 3
     if a.jobs > 1 and len(jobs) > 1:
-        ctx = mp.get_context("fork")
-        with ctx.Pool(min(a.jobs, len(jobs))) as pool:
-            reports = pool.map(_job, jobs, chunksize=1)
+        reports = run_jobs(jobs, min(a.jobs, len(jobs)), JOB_LIMIT_S.get(a.tier, 900))
     else:
         reports = [_job(j) for j in jobs]
     return aggregate(prop, a, reports, jobs, seed, time.perf_counter() - t0)
+
+
+# hard wall-clock limit of one job (one structural case of one contract, all its paths).  z3 honours its own
+# timeout cooperatively only: some routines (non-linear arithmetic) do not poll it and a query can run for hours.
+# A job that exceeds the limit is killed and its case reported as undecided (exit 2) -- never as a violation.
+JOB_LIMIT_S = {"quick": int(os.environ.get("PSVC_JOB_LIMIT", "600")), "thorough": int(os.environ.get("PSVC_JOB_LIMIT", "1800"))}
+
+
+def _worker_loop(conn):
+    """long-lived worker: receives jobs, sends reports (module state -- loaded sources, the native library -- is kept
+    from one job to the next)"""
+    while True:
+        try:
+            job = conn.recv()
+        except EOFError:
+            return
+        if job is None:
+            return
+        try:
+            conn.send(_job(job))
+        except BaseException as e:  # noqa
+            try:
+                conn.send({"__crash__": f"{type(e).__name__}: {e}"})
+            except Exception:  # noqa
+                return
+
+
+def _empty_report(job, fault=None, undecided=None):
+    cid, case, props, tier, seed = job
+    return {"contract": cid, "case": C.case_id(case), "target": C.REGISTRY[cid].target, "obligations": [], "paths": 0,
+            "unsupported": [undecided] if undecided else [], "faults": [fault] if fault else [], "diff_points": 0, "sentinels": [],
+            "assumptions": [], "solver_time_s": 0.0, "wall_s": 0.0, "executed": []}
+
+
+def run_jobs(jobs, nproc, limit_s):
+    """a pool of nproc long-lived forked workers; every job runs under a hard wall-clock limit: a worker that
+    exceeds it is killed (and replaced) and its job reported as undecided"""
+    ctx = mp.get_context("fork")
+
+    def spawn():
+        parent, child = ctx.Pipe(duplex=True)
+        p = ctx.Process(target=_worker_loop, args=(child,), daemon=True)
+        p.start()
+        child.close()
+        return {"proc": p, "conn": parent, "job": None, "t0": None}
+
+    workers = [spawn() for _ in range(nproc)]
+    pending = list(enumerate(jobs))
+    results = [None] * len(jobs)
+    done = 0
+    while done < len(jobs):
+        progressed = False
+        for i, w in enumerate(workers):
+            if w["job"] is None:
+                if pending:
+                    idx, job = pending.pop(0)
+                    try:
+                        w["conn"].send(job)
+                        w["job"], w["t0"] = (idx, job), time.perf_counter()
+                        progressed = True
+                    except (BrokenPipeError, OSError):
+                        pending.insert(0, (idx, job))
+                        workers[i] = spawn()
+                continue
+            idx, job = w["job"]
+            got = None
+            if w["conn"].poll():
+                try:
+                    got = w["conn"].recv()
+                except (EOFError, OSError):
+                    got = {"__crash__": "worker closed its pipe without a result"}
+            elif not w["proc"].is_alive():
+                got = {"__crash__": f"worker exited with code {w['proc'].exitcode} without a result"}
+            elif time.perf_counter() - w["t0"] > limit_s:
+                got = {"__timeout__": True}
+            if got is None:
+                continue
+            progressed = True
+            done += 1
+            if "__crash__" in got or "__timeout__" in got:
+                try:
+                    w["proc"].kill()
+                    w["proc"].join(timeout=5)
+                    w["conn"].close()
+                except Exception:  # noqa
+                    pass
+                workers[i] = spawn()
+                if "__timeout__" in got:
+                    results[idx] = dict(_empty_report(job, undecided=f"job killed after {limit_s} s: a solver call did not return (undecided, not a violation)"), killed=True)
+                else:
+                    results[idx] = _empty_report(job, fault=f"checker worker crashed: {got['__crash__']}")
+            else:
+                results[idx] = got
+                w["job"], w["t0"] = None, None
+        if not progressed:
+            time.sleep(0.005)
+    for w in workers:
+        try:
+            w["conn"].send(None)
+            w["conn"].close()
+        except Exception:  # noqa
+            pass
+    for w in workers:
+        w["proc"].join(timeout=2)
+        if w["proc"].is_alive():
+            w["proc"].kill()
+    return results
 
 
 def confirm_natively(ob, case, params, schedule):
@@ -256,7 +361,15 @@ def aggregate(prop, a, reports, jobs, seed, wall):
         gone = {rep["helper_missing"] for rep in reports if rep.get("helper_missing")}
         for g in sorted(gone):
             print(f"NOTE: {prop}: helper {g} no longer exists under that name: its lemma contract is not applicable (the public-level contracts run whatever replaced it)")
-        missing = sorted(o for o in set(expected.get(key, [])) - set(obligations) if not any(o.startswith(f"{prop}/{g}/") for g in gone))
+        killed = [(rep["target"], rep["case"]) for rep in reports if rep.get("killed")]
+
+        def waived(o):
+            # obligations of a helper that is gone (NOTE above) or of a job that was killed (already reported as undecided)
+            if any(o.startswith(f"{prop}/{g}/") for g in gone):
+                return True
+            return any(o.startswith(f"{prop}/{t}/") and (o.endswith(f"[{c}]") if c else True) for t, c in killed)
+
+        missing = sorted(o for o in set(expected.get(key, [])) - set(obligations) if not waived(o))
         if key not in expected:
             faults.append(f"no expected-obligation list recorded for {key}")
         for mi in missing[:20]:
